@@ -215,7 +215,7 @@ var shapes = []shape{
 			nd(5, "n5", []string{"A"}, map[string]any{"name": "héllo ✓", "flag": true}),
 			nd(6, "n6", nil, map[string]any{"score": 0.5}),
 			nd(9, "n9", []string{"B", "C"}, map[string]any{"tags": []any{"x", "y"}}),
-			nd(1 << 33, "nbig", []string{"A"}, map[string]any{"value": int64(1<<53 + 1)})},
+			nd(1<<33, "nbig", []string{"A"}, map[string]any{"value": int64(1<<53 + 1)})},
 		Edges: []fakedb.EdgeSpec{
 			ed(3, 5, 6, "R", "e3", map[string]any{"w": int64(1)}),
 			ed(4, 6, 5, "R", "e4", nil),
@@ -241,8 +241,8 @@ var nFixtures = len(shapes) * len(codecs)
 type span struct{ lo, hi int } // [lo,hi)
 
 type tarEntrySpan struct {
-	name                 string
-	header, data, pad    span
+	name              string
+	header, data, pad span
 }
 
 type frameSpan struct {
@@ -481,11 +481,11 @@ func newSandbox() (*sandbox, error) {
 		}
 	}
 	for p, c := range map[string]string{
-		filepath.Join(root, "outside.txt"):                       "outside sentinel",
-		filepath.Join(sb.box, "sentinel.txt"):                    "box sentinel",
-		filepath.Join(sb.box, "sibling", "keep.txt"):             "sibling file",
-		filepath.Join(sb.box, "sibling", "sub", "deep.txt"):      "deep sibling file",
-		filepath.Join(sb.box, "sibling", "manifest.json"):        "{\"not\":\"a manifest\"}",
+		filepath.Join(root, "outside.txt"):                  "outside sentinel",
+		filepath.Join(sb.box, "sentinel.txt"):               "box sentinel",
+		filepath.Join(sb.box, "sibling", "keep.txt"):        "sibling file",
+		filepath.Join(sb.box, "sibling", "sub", "deep.txt"): "deep sibling file",
+		filepath.Join(sb.box, "sibling", "manifest.json"):   "{\"not\":\"a manifest\"}",
 	} {
 		if err := os.WriteFile(p, []byte(c), 0o644); err != nil {
 			return nil, err
@@ -493,9 +493,12 @@ func newSandbox() (*sandbox, error) {
 	}
 	sb.oldTmp, sb.hadTmp = os.LookupEnv("TMPDIR")
 	_ = os.Setenv("TMPDIR", sb.tmp)
-	sb.before = snapTree(root, sb.out, sb.tmp)
 	return sb, nil
 }
+
+// seal records the state of everything but the output directory; called once the case's inputs
+// (dump directory, archive file) have been written into the sandbox.
+func (sb *sandbox) seal() { sb.before = snapTree(sb.root, sb.out, sb.tmp) }
 
 func (sb *sandbox) close() {
 	if sb.hadTmp {
@@ -698,7 +701,7 @@ const (
 
 // judgeLoad runs Load into an empty fakedb and applies the Load half of the oracle.
 // Returns "rejected" or "accepted".
-func judgeLoad(fx *fixture, what string, opts retriever.LoadOptions, exp expectation) (string, string, error) {
+func judgeLoad(fx *fixture, what string, opts retriever.LoadOptions, exp expectation, why string) (string, string, error) {
 	db := fakedb.New()
 	opts.BatchSize = 2
 	_, err := retriever.Load(context.Background(), db, driverName, opts)
@@ -715,7 +718,7 @@ func judgeLoad(fx *fixture, what string, opts retriever.LoadOptions, exp expecta
 		return "rejected", "", nil
 	}
 	if exp == mustReject {
-		return "", "", fmt.Errorf("%s: Load succeeded (%d writes) although bytes covered by a digest / the AEAD were changed", what, db.WriteCount())
+		return "", "", fmt.Errorf("%s: Load succeeded (%d writes) although %s", what, db.WriteCount(), why)
 	}
 	want := map[string]bool{}
 	for _, g := range fx.graphs {
